@@ -755,7 +755,8 @@ func (o *OpenAPI3Importer) buildParams(params openapi3.Parameters) (Parameters, 
 		}
 		// Avoid putting sequences into the params
 		if a, ok := p.Field.Type.(*Array); ok {
-			p.Field.Type = o.types.AddAndRet(&Alias{baseType: baseType{name: item.Value.Name}, Target: a})
+			// name is the Sysl-safe form for a query parameter: the query string refers to the alias as {name}
+			p.Field.Type = o.types.AddAndRet(&Alias{baseType: baseType{name: name}, Target: a})
 		}
 		p.Optional = !item.Value.Required
 		out.Add(p)
